@@ -1,7 +1,7 @@
 \* the design: no deviation, no quirk; every origin form; two objects of one origin on independent paths
 SPECIFICATION Spec
 CONSTANTS
-  Kinds = {"tx", "block", "header", "stateroot", "extensible", "consensus", "notaryreq", "aer", "nef", "manifest", "contract", "mptnode", "rule", "item"}
+  Kinds = {"tx", "block", "header", "stateroot", "extensible", "consensus", "notaryreq", "aer", "nef", "manifest", "contract", "mptnode", "rule", "signer", "item"}
   K = 4
   Dev = {}
   Quirks = {}
